@@ -7,12 +7,12 @@ SPEC = {
     "abort_is_violation": True,  # the property is totality: a process abort / hang of the real code on a case is a violation
     "level": "proof",
     "lean_modules": ["PallasVerif.Props.C29"],
-    "required_theorems": ["initiator_no_panic_partial", "responder_no_panic_partial", "initiator_panic_only_overflow",
+    "required_theorems": ["initiator_no_panic_partial", "responder_no_panic_partial", "initiator_panic_only_overflow", "discovery_subtraction_needs_guard",
                           "full_statement_fails", "all_sites_discharged", "protocol_machines_match_source"],
     "translators": [scan_panics.scan_p2p, translate_fsm.translate_n2],
     "streams": [{"name": "p2p_events", "quick": 500, "thorough": 15000},
                 {"name": "p2p_resp", "quick": 500, "thorough": 15000}],
-    "rule": "event sequences (5..300 events, 2..12 peers) for InitiatorBehavior (stream p2p_events) and ResponderBehavior "
+    "rule": "discovery-pool family (1..3 handshaked peers asked in one round answer with 0..300 addresses, distinct or overlapping, more than asked included, limits max_peers k..k+6), counter families (limits exceeded by 8 peers, error storms around max_error_count, request queues longer than the peer set, responder connection storms per host around max_connections_per_ip) and event sequences (5..300 events, 2..12 peers) for InitiatorBehavior (stream p2p_events) and ResponderBehavior "
             "(p2p_resp): connected/disconnected/error in any order, Recv batches and Sent confirmations drawn from 41/44 message "
             "shapes of all eight mini-protocols (mostly violations in the current state), housekeeping/idle, every command; "
             "distinct = sha1 of op text; non-trivial = at least one peer completed a handshake and at least one peer was "
@@ -34,7 +34,7 @@ SPEC = {
         "panics inside dependencies (opentelemetry, futures, tracing, std collections/allocation) are outside the model",
         "behavior/mod.rs (AnyMessage::payload `to_vec(..).unwrap()`, used by the interface when sending) is outside the anchored files",
     ],
-    "explanation": "self-tests on the pallas worktree (reverted afterwards): responder try_accept_handshake without the "
+    "explanation": "seeded C29-a (needs_more_peers rewritten as an unchecked remaining_capacity() > 0): VIOLATION `panic initiator hk` with an 8-event replay (one peer answers ShareRequest(100) with 150 addresses, next housekeeping panics) in addition to the inventory break. self-tests on the pallas worktree (reverted afterwards): responder try_accept_handshake without the "
                    "contains_key filter -> VIOLATION (panic responder recv hs.propose); assert! restored in propose_handshake -> "
                    "VIOLATION (panic initiator connected + new inventory site); check_confirmation early-return rewritten as "
                    "if-let, keepalive try_respond reordered -> quiet.",
